@@ -121,7 +121,7 @@ def _work_hist(args):
   return out
 
 
-def _signature(kinds_tab, chain, mask, mode, d):
+def _signature(kinds_tab, chain, mask, mode, d, src=None):
   clause, what = d[0], d[1]
   sig = {'clause': clause, 'mode': 'param' if mode == 'param' else 'scoped'}
   if clause == 'containment':
@@ -133,6 +133,12 @@ def _signature(kinds_tab, chain, mask, mode, d):
   else:
     sig['kind'] = chain[0]
     sig['what'] = what
+    if chain[0] == 'Assign' and src:
+      # the target shapes of the final assignment, e.g. Name, Name+Name (chained), Subscript, Name+Attribute
+      import ast   # pylint: disable=import-outside-toplevel
+      last = ast.parse(src).body[-1]
+      if isinstance(last, ast.Assign):
+        sig['last_targets'] = '+'.join(type(t).__name__ for t in last.targets)
   return sig
 
 
@@ -177,6 +183,7 @@ def run(chk):
   chk.require(names <= set(kinds_tab), f'node classes of this interpreter missing in Perm.tla: {sorted(names - set(kinds_tab))}')
   chk.require(set(kinds_tab) <= names, f'Perm.tla kinds unknown to this interpreter: {sorted(set(kinds_tab) - names)}')
   chk.require(set(data['stmt_slots']) == perm.STMT_SLOTS, 'statement slots differ between spec and templates')
+  chk.require(set(data['store_slots']) == perm.STORE_SLOTS, 'store slots differ between spec and templates')
   gated = {k for k, rec in kinds_tab.items() if rec['must'] != 'none' or rec['amb']}
   generated_kinds = set()
   used_slots = set()
@@ -237,7 +244,7 @@ def run(chk):
         chk.count('scope_history_evaluated_after_an_inner_exit')
       chk.distinct_case((chain, mask, tuple(h)))
       if d is not None:
-        sig = _signature(kinds_tab, chain, {0: 255, 1: mask, 2: 255, 3: 0}[eff], 'history', d)
+        sig = _signature(kinds_tab, chain, {0: 255, 1: mask, 2: 255, 3: 0}[eff], 'history', d, src)
         sig['mode'] = 'history'
         chk.violation(sig, {'chain': chain, 'source': src, 'mask': mask, 'permission': _perm_str(mask),
                             'history': h, 'history_legend': '1 enter P, 2 enter ALL, 3 enter NOTHING, 0 leave',
@@ -267,7 +274,7 @@ def run(chk):
       else:
         n_ran += 1
       if d is not None:
-        sig = _signature(kinds_tab, chain, mask, mode, d)
+        sig = _signature(kinds_tab, chain, mask, mode, d, src)
         chk.violation(sig, {'chain': chain, 'source': src, 'mask': mask, 'permission': str(_perm_str(mask)),
                             'mode': mode, 'api': api, 'verdict': ('ALLOW', 'REJECT', 'EITHER')[code],
                             'outcome': outcome, 'what': d[1], 'expected': d[2], 'observed': d[3]})
